@@ -238,7 +238,7 @@ func execRecovery(input string) string {
 		case "recv":
 			msg := fbcontext.Message{MessageType: "recoveryrequest", Key: f[1], Payload: encodeReqs(int32(pi(1)), f[2])}
 			topicLog = append(topicLog, msg)
-			g.rc.VerifTracker().VerifReceive(msg.Key, msg.Payload)
+			_ = g.kc.Receive(msg)
 		case "crash":
 			old := g
 			g = newRecoveryRig(maxRec, maxRate, true)
